@@ -75,8 +75,9 @@ func runC08(c *Ctx) {
 			}
 			_, isInv := ana.Match("load(global<"+slipPkg+"ErrInvalidKey>)", et)
 			blk := e.Instr.Block()
-			viaRange := mustPass(fn, blk, rng)
-			viaInf := len(xz) > 0 && len(yz) > 0 && mustPass(fn, blk, xz) && mustPass(fn, blk, yz)
+			_ = blk
+			viaRange := exitMustPass(fn, e, rng)
+			viaInf := len(xz) > 0 && len(yz) > 0 && exitMustPass(fn, e, xz) && exitMustPass(fn, e, yz)
 			r.Check(isInv && (viaRange || viaInf), "C08.sibling-guards.public.reject-closed", c.ipos(e.Instr), "ErrInvalidKey only for I_L >= N or for the point at infinity (both coordinates zero): range=%v infinity=%v", viaRange, viaInf)
 		}
 	}
@@ -99,7 +100,8 @@ func runC08(c *Ctx) {
 				continue
 			}
 			blk := e.Instr.Block()
-			r.Check(mustPass(fn, blk, rng) || len(zero) > 0 && mustPass(fn, blk, zero), "C08.sibling-guards.private.reject-closed", c.ipos(e.Instr), "ErrInvalidKey only for I_L >= N or (I_L + k) mod N == 0 (whose public counterpart is the point at infinity)")
+			_ = blk
+			r.Check(exitMustPass(fn, e, rng) || len(zero) > 0 && exitMustPass(fn, e, zero), "C08.sibling-guards.private.reject-closed", c.ipos(e.Instr), "ErrInvalidKey only for I_L >= N or (I_L + k) mod N == 0 (whose public counterpart is the point at infinity)")
 		}
 	}
 	// ---- shared DeriveChild obligations and Public()
